@@ -3,7 +3,7 @@
 From Coq Require Import List Arith ZArith Bool Lia Permutation Wf_nat.
 From MptV Require Import C14.NodeModel C14.NodeSpec C14.NodeRep C14.NodeFocus C14.NodeExec
   C14.NodeLocal C14.NodeInv C14.NodeRefine C14.NodeFree C14.NodeClone C14.NodeInsert C14.NodeInsertName
-  C14.NodeWalk C14.NodeEnd C14.NodeMove C14.NodeMoveStep C14.NodeSwap C14.NodeSwitch.
+  C14.NodeWalk C14.NodeEnd C14.NodeMove C14.NodeMoveStep C14.NodeSwap C14.NodeSwitch C14.NodeFind.
 Import ListNotations.
 Local Open Scope nat_scope.
 
@@ -28,6 +28,8 @@ Proof.
   - apply step_switch.
   - apply step_relink.
   - apply step_trav.
+  - apply step_find.
+  - apply step_next.
   - apply step_end.
 Qed.
 
